@@ -303,8 +303,9 @@ theorem c04_cargo_target_tables :
     strIn Generated.dependencyTables (cargoSection "target.'cfg(unix)'.dependencies".toList) = true ∧
     strIn Generated.dependencyTables (cargoSection "target.x86_64-pc-windows-gnu.dev-dependencies".toList) = true ∧
     strIn Generated.dependencyTables (cargoSection "target.'cfg(unix)'.features".toList) = false ∧
+    strIn Generated.dependencyTables (cargoSection "target.dependencies".toList) = false ∧
     strIn Generated.dependencyTables (cargoSection "workspace.dependencies".toList) = true := by
-  refine ⟨?_, ?_, ?_, ?_⟩ <;> decide
+  refine ⟨?_, ?_, ?_, ?_, ?_⟩ <;> decide
 
 /-- a renamed dependency is checked under its `package` name (F-C04-4, fixed):
     `a = { package = "b", version = "1" }` is crate `b`, version `1`, located at the `1` -/
